@@ -180,6 +180,7 @@ func runC13(a *A) {
 			a.ruleTrailingWildcards(m)
 		}
 	})
+	a.Rule("shape/like-shortcut-operand", 3, func() { a.ruleLikeShortcutOperand() })
 	a.Rule("ordtab/wildcard-priority", 3, func() {
 		for _, m := range []*ssa.Function{a.Func("condition", "matchesLikePattern"), a.Func("expr", "matchLikePattern"), a.Method("functions", "ExprBridge", "matchesLikePattern")} {
 			a.ruleWildcardPriority(m)
@@ -380,4 +381,61 @@ func (a *A) ruleTrailingWildcards(fn *ssa.Function) {
 	}
 	a.Check(skip && accept, construct, fn.Pos(), "after the text is exhausted all remaining '%' are skipped in a loop and the match is accepted iff the pattern is exhausted",
 		fmt.Sprintf("after the text is exhausted the matcher does not skip every remaining '%%' (loop found: %v) or does not accept on 'pattern exhausted' (found: %v): e.g. 'abc' LIKE 'a_c%%%%' is decided false", skip, accept))
+}
+
+// ruleLikeShortcutOperand: convertLikeToFunction replaces simple LIKE patterns by the builtin string
+// operators. The literal handed to contains / startsWith / endsWith must hold no '%' (the operators
+// take it literally): it has to be the pattern with the whole run of '%' removed on every side the
+// branch allows a '%' on — the result of strings.Trim / TrimLeft / TrimRight with cutset "%", not of
+// TrimPrefix / TrimSuffix, which remove one character ('%%a' became endsWith '%a').
+func (a *A) ruleLikeShortcutOperand() int {
+	fn := a.Method("functions", "ExprBridge", "convertLikeToFunction")
+	n := 0
+	allInstrs(fn, func(in ssa.Instruction) {
+		c, ok := in.(*ssa.Call)
+		if !ok {
+			return
+		}
+		f := c.Call.StaticCallee()
+		if f == nil || f.Pkg == nil || f.Pkg.Pkg.Path() != "fmt" || f.Name() != "Sprintf" {
+			return
+		}
+		format := constText(c.Call.Args[0])
+		op := ""
+		for _, o := range []string{" contains ", " startsWith ", " endsWith "} {
+			if strings.Contains(format, o) {
+				op += strings.TrimSpace(o)
+			}
+		}
+		if op == "" {
+			return
+		}
+		n++
+		construct := fname(fn) + "#operand-of-" + op
+		// variadic args: the literal operands are every argument after the field
+		var bad []string
+		okN := 0
+		for _, e := range appendedElems(&c.Call) {
+			v := e
+			if mi, isMI := v.(*ssa.MakeInterface); isMI {
+				v = mi.X
+			}
+			if _, isParam := v.(*ssa.Parameter); isParam {
+				continue // the field name
+			}
+			tc, isCall := v.(*ssa.Call)
+			if isCall {
+				if tf := tc.Call.StaticCallee(); tf != nil && tf.Pkg != nil && tf.Pkg.Pkg.Path() == "strings" &&
+					(tf.Name() == "Trim" || tf.Name() == "TrimLeft" || tf.Name() == "TrimRight") && constText(tc.Call.Args[1]) == "%" {
+					okN++
+					continue
+				}
+			}
+			bad = append(bad, TermOf(v, nil).String())
+		}
+		a.Check(len(bad) == 0 && okN > 0, construct, c.Pos(),
+			"the literal operand is the pattern with every leading/trailing '%' removed",
+			"the literal operand "+strings.Join(bad, ", ")+" of "+op+" is not the pattern with the whole run of '%' removed (strings.Trim/TrimLeft/TrimRight with cutset \"%\"): a remaining '%' would be matched literally")
+	})
+	return n
 }
